@@ -24,10 +24,10 @@ chk = Check('C01', 'model_checking',
             'non-trivial/distinct by its model state (cell, orientation, origin, reciprocal-cache flag); '
             'every transition checks lengths/angles/volume, read-back through all parameter sets, '
             'rel<->cart inverses on a 27-point lattice in 3 shapes x list/array, reciprocal duality '
-            'and inside/outside on a 64-point grid plus exact face points of power-of-two cells')
+            'and inside/outside on a 512-point grid (margin 0.05 from faces, edges and corners, inside and outside) plus exact face points of power-of-two cells')
 chk.assumptions = ['relative tolerance 1e-8*max|vects| on vectors (the vects setter itself zeroes entries '
                    'below 1e-9*max), angles 1e-7 degree',
-                   'points for inside/outside keep a margin of 0.25 (relative) from faces except the exactly '
+                   'points for inside/outside keep a margin of 0.05 (relative) from faces except the exactly '
                    'representable face points of power-of-two orthogonal cells with integer origin']
 
 
@@ -218,7 +218,8 @@ def _hidden_state(box):
 
 
 REL27 = np.array(list(itertools.product([-1.0, 0.37, 2.0], repeat=3)))
-GRID64 = np.array(list(itertools.product([-0.5, 0.25, 0.75, 1.5], repeat=3)))
+# relative coordinates: outside on both sides, interior, and close (0.05) to every face / edge / corner from inside and outside
+GRID64 = np.array(list(itertools.product([-0.5, -0.05, 0.05, 0.25, 0.75, 0.95, 1.05, 1.5], repeat=3)))     # 512 points
 FACE27 = np.array(list(itertools.product([0.0, 0.5, 1.0], repeat=3)))
 
 
@@ -356,17 +357,17 @@ def check(hist, st):
     cart64 = GRID64 @ v + o
     for inclusive in (True, False):
         got = np.asarray(box.inside(cart64, inclusive=inclusive))
-        if got.shape != (64,) or not np.array_equal(got, exp_in):
-            bad('inside', 'inside(inclusive=%r) wrong for %d of 64 grid points' % (inclusive, int(np.sum(got != exp_in))),
-                first=GRID64[np.argmax(got != exp_in)].tolist() if got.shape == (64,) else None)
+        if got.shape != (len(GRID64),) or not np.array_equal(got, exp_in):
+            bad('inside', 'inside(inclusive=%r) wrong for %d of 512 grid points' % (inclusive, int(np.sum(got != exp_in))),
+                first=GRID64[np.argmax(got != exp_in)].tolist() if got.shape == (len(GRID64),) else None)
         gout = np.asarray(box.outside(cart64, inclusive=inclusive))
         if not np.array_equal(gout, ~exp_in):
             bad('outside', 'outside(inclusive=%r) is not the complement' % inclusive)
-        got3 = np.asarray(box.inside(cart64.reshape(4, 16, 3), inclusive=inclusive))
-        if got3.shape != (4, 16) or not np.array_equal(got3.ravel(), exp_in):
-            bad('inside-shape', 'inside on a (4,16,3) array wrong')
-        g1 = box.inside(cart64[21].tolist(), inclusive=inclusive)
-        if bool(g1) != bool(exp_in[21]):
+        got3 = np.asarray(box.inside(cart64.reshape(8, 64, 3), inclusive=inclusive))
+        if got3.shape != (8, 64) or not np.array_equal(got3.ravel(), exp_in):
+            bad('inside-shape', 'inside on a (8,64,3) array wrong')
+        g1 = box.inside(cart64[219].tolist(), inclusive=inclusive)
+        if bool(g1) != bool(exp_in[219]):
             bad('inside-single', 'inside on a single list point wrong')
     # exact boundary semantics where the arithmetic is exact
     diag = np.diag(np.diag(v))
